@@ -37,6 +37,7 @@ def run(prog, chk):
     top_level_predicate(prog, chk)
     qualified_names(prog, chk)
     inner_events_guard(prog, chk)
+    no_precheck(prog, chk)
 
 
 def _bool_call_gate(body, callee_pred):
@@ -312,3 +313,13 @@ def inner_events_guard(prog, chk):
             found = (rv["op"], oa[0], ob[0])
     ok = found is not None and found[0] in ("Gt", "Lt") and found[1] != "rv" and found[2] != "rv" and found[1] != "const" and found[2] != "const"
     chk.ob(ok, "A7.inner-events", "inner_events", b.where(), "inner_events() yields the (possibly empty) content list whenever end > start", f"the range guard of inner_events() is not the plain `end > start` (found {found}): an element whose tags are adjacent (`<svg xmlns=..></svg>`) loses its content list and is dropped by Container")
+
+
+def no_precheck(prog, chk):
+    """Transformer::transform reads, processes and post-processes: it raises no error of its own (a check placed ahead of
+    process_events would also hit real SVG, which must pass through under every configuration)"""
+    b = prog.body("svgdx::transform::Transformer::transform")
+    chk.touch(b)
+    own = [st["rv"].get("variant") for x, i, st in b.all_stmts() if st.get("rv", {}).get("k") == "aggr" and st["rv"].get("adt") == "svgdx::errors::SvgdxError"]
+    calls = sorted({c.path.split("::")[-1] for (bb, t, c) in b.call_sites(lambda c: c.path.startswith("svgdx::"))})
+    chk.ob(not own and {"from_reader", "process_events", "postprocess"} <= set(calls), "A13.no-precheck", "Transformer::transform", b.where(), f"transform() only chains {calls}", f"Transformer::transform constructs an error itself ({own}): a document-level check ahead of process_events also rejects real SVG input (and svgdx's own output on re-processing) under configurations where the pass-through would have succeeded")
